@@ -176,7 +176,9 @@ func roMenu() []roOp {
 				cv[i], yv[i] = *is.Cs[i], *is.ys[i]
 			}
 			cs, ys, zs := roPtrEls(g, cv), roPtrFrs(g, yv), roU8(g, is.zs)
-			rp := &multiproof.MultiProof{D: p.D, IPA: ipa.IPAProof{L: roEls(g, p.IPA.L), R: roEls(g, p.IPA.R), A_scalar: p.IPA.A_scalar}}
+			// the proof object itself lives in the protected pages too (its slices point into them)
+			rp := (*multiproof.MultiProof)(g.alloc(int(unsafe.Sizeof(multiproof.MultiProof{}))))
+			rp.D, rp.IPA = p.D, ipa.IPAProof{L: roEls(g, p.IPA.L), R: roEls(g, p.IPA.R), A_scalar: p.IPA.A_scalar}
 			return func() string {
 				ok, err := multiproof.CheckMultiProof(common.NewTranscript("vt"), c, rp, cs, ys, zs)
 				return fmt.Sprint(ok, err)
